@@ -213,6 +213,7 @@ func init() {
 			{conf: machDomain, pt: "g", rules: [][]string{{"alice", "admin", "d1"}, {"alice", "admin", "d2"}, {"bob", "admin", "d1"}, {"admin", "root", "d1"}},
 				other: "p", otherR: [][]string{{"admin", "d1", "data1", "read"}}, names: []string{"alice", "bob", "admin", "root"}, domains: []string{"d1", "d2"}},
 		}
+		c05Detours(c)
 		for ti, t := range targets {
 			al := c05Alphabet(t)
 			type node struct{ path []mOp }
@@ -286,6 +287,46 @@ func init() {
 		c.Exhaust = true
 		c05Probes(c)
 	})
+}
+
+// transitive detours: every ordered way of adding (and removing again) the three links a->b,
+// b->c and the shortcut a->c, so that each link is at some point redundant when it is added and
+// the only path later.  Every sequence of up to 5 single calls over the 6 add/remove calls.
+func c05Detours(c *Ctx) {
+	t := c05Target{conf: machRBAC, pt: "g", names: []string{"a", "b", "c"}, onames: []string{"a"}}
+	rules := [][]string{{"a", "b"}, {"b", "c"}, {"a", "c"}}
+	var al []mOp
+	for _, r := range rules {
+		al = append(al, mOp{Kind: "add", Pt: "g", R1: [][]string{r}}, mOp{Kind: "remove", Pt: "g", R1: [][]string{r}})
+	}
+	depth := 4
+	if c.Thorough() {
+		depth = 6
+	}
+	n := 0
+	var rec func(seq []mOp)
+	rec = func(seq []mOp) {
+		if len(seq) == depth {
+			n++
+			c05Run(c, fmt.Sprintf("c05.detour.%d", n), t, nil, true, append([]mOp{{Kind: "load"}}, seq...), true)
+			return
+		}
+		for _, o := range al {
+			// skip no-ops: adding a listed rule, removing an unlisted one
+			listed := false
+			for _, x := range seq {
+				if sameRule(x.R1[0], o.R1[0]) {
+					listed = x.Kind == "add"
+				}
+			}
+			if (o.Kind == "add") == listed {
+				continue
+			}
+			rec(append(append([]mOp(nil), seq...), o))
+		}
+	}
+	rec(nil)
+	c.Count(fmt.Sprintf("detour-sequences=%d", n))
 }
 
 const c05CondModel = `[request_definition]
